@@ -2,7 +2,7 @@
    Statements only (copied from the lemma libraries); every proof is a bare
    `exact`; see the cited files in coq/proofs for the proofs. *)
 From Coq Require Import List NArith ZArith Bool Arith Sorting.Sorted Sorting.Permutation.
-From D2P Require Import Str Err Xml TableTypes Tables Fmt Bullets Merge Collector Walk ShapeFacts TokFacts FrameFacts BulletsFacts MarkerFacts Iter Output Paths Package Content Utilities UtilFacts.
+From D2P Require Import Str Err Xml TableTypes Tables Fmt Bullets Merge Collector Walk ShapeFacts TokFacts FrameFacts BulletsFacts MarkerFacts Iter Output Paths Package Content Utilities UtilFacts PyVal PyHeap SourceHeap SourceHeapRuns SourceCaret SourceRuns.
 Import ListNotations.
 
 (* a hyperlink whose relationship id resolves contributes, with html on or off, the tokens <a href=TARGET> BODY </a> where BODY is what its children contribute *)
@@ -159,3 +159,15 @@ Theorem C10_bracket_text_exact :
     end.
 Proof. exact link_match_bracket_exact. Qed.
 Print Assumptions C10_bracket_text_exact.
+
+(* SOURCE TIE: the marker of a link / note reference goes into a run of its own (insert_text_as_new_run as translated from the source), the open style resumes after it *)
+Theorem C10_source_insert_text_as_new_run :
+  forall (epf : pv -> pv -> hm pv) (eps : pv -> hm pv),
+  forall fuel h self pa ra rs item,
+    rd_open h self = Some (pa, ra, rs) ->
+    exists h', S_H_insert_text_as_new_run epf eps fuel self (VStr item) h = HOk VNone h'
+               /\ rd_open h' self
+                  = Some (pa, ra, ensure_rv rs ++ [([], item); (last_style (ensure_rv rs), [])])
+               /\ frame_runs h h' ra.
+Proof. exact src_insert_text_as_new_run. Qed.
+Print Assumptions C10_source_insert_text_as_new_run.
